@@ -359,17 +359,17 @@ theorem computeDfdv_post (st : St) (bid : Nat) :
       · exact hm
 
 theorem argMinFirst_mem (xs : Array (Nat × Rat)) (i : Nat) (x g : Rat)
-    (h : argMinFirst xs = some (i, x, g)) : ∃ p ∈ xs, p.1 = i := by
+    (h : argMinFirst xs = some (i, x, g)) : (i, x) ∈ xs := by
   unfold argMinFirst at h
   simp only at h
   split at h
   · simp at h
   · rename_i k i' x' hfold
     simp only [Option.some.injEq, Prod.mk.injEq] at h
-    obtain ⟨rfl, _, _⟩ := h
+    obtain ⟨rfl, rfl, _⟩ := h
     have key := Array.foldl_induction
       (as := xs.mapIdx fun k (p : Nat × Rat) => (k, p.1, p.2))
-      (motive := fun _ (best : Option (Nat × Nat × Rat)) => ∀ q, best = some q → ∃ p ∈ xs, p.1 = q.2.1)
+      (motive := fun _ (best : Option (Nat × Nat × Rat)) => ∀ q, best = some q → (q.2.1, q.2.2) ∈ xs)
       (init := none)
       (f := fun best p => match best with
         | none => some p
@@ -377,9 +377,13 @@ theorem argMinFirst_mem (xs : Array (Nat × Rat)) (i : Nat) (x g : Rat)
       (by intro q hq; simp at hq)
       (by
         intro j best hm q hq
-        have hp : ∃ p ∈ xs, p.1 = ((xs.mapIdx fun k (p : Nat × Rat) => (k, p.1, p.2))[j]).2.1 := by
-          refine ⟨xs[j.1]'(by have := j.2; simpa using this), Array.getElem_mem _, ?_⟩
-          simp
+        have hp : (((xs.mapIdx fun k (p : Nat × Rat) => (k, p.1, p.2))[j]).2.1,
+            ((xs.mapIdx fun k (p : Nat × Rat) => (k, p.1, p.2))[j]).2.2) ∈ xs := by
+          have hj : j.1 < xs.size := by have := j.2; simpa using this
+          have : (((xs.mapIdx fun k (p : Nat × Rat) => (k, p.1, p.2))[j]).2.1,
+            ((xs.mapIdx fun k (p : Nat × Rat) => (k, p.1, p.2))[j]).2.2) = xs[j.1] := by simp
+          rw [this]
+          exact Array.getElem_mem _
         cases best with
         | none =>
           simp only [Option.some.injEq] at hq
@@ -394,5 +398,36 @@ theorem argMinFirst_mem (xs : Array (Nat × Rat)) (i : Nat) (x g : Rat)
             exact hp
           · exact hm q hq)
     exact key _ hfold
+
+theorem argMinFirst_none (xs : Array (Nat × Rat)) (h : argMinFirst xs = none) : xs = #[] := by
+  unfold argMinFirst at h
+  simp only at h
+  split at h
+  · rename_i hfold
+    by_contra hne
+    have hpos : 0 < xs.size := by
+      rcases Nat.eq_zero_or_pos xs.size with h0 | h0
+      · exact absurd (Array.eq_empty_of_size_eq_zero h0) hne
+      · exact h0
+    have key := Array.foldl_induction
+      (as := xs.mapIdx fun k (p : Nat × Rat) => (k, p.1, p.2))
+      (motive := fun n (best : Option (Nat × Nat × Rat)) => 0 < n → best.isSome = true)
+      (init := none)
+      (f := fun best p => match best with
+        | none => some p
+        | some (_, _, bx) => if p.2.2 < bx then some p else best)
+      (by intro h0; exact absurd h0 (Nat.lt_irrefl 0))
+      (by
+        intro j best _ _
+        cases best with
+        | none => rfl
+        | some b =>
+          obtain ⟨b1, b2, b3⟩ := b
+          simp only
+          split <;> rfl)
+    have h2 := key (by simpa using hpos)
+    have h3 := congrArg Option.isSome hfold
+    exact absurd (h2.symm.trans h3) (by simp)
+  · simp at h
 
 end AdaptaVerif.Lemmas.VpscTraverse
